@@ -1,7 +1,17 @@
 //! C12 — equality is symmetric and consistent with ordering.
+use crate::oracle::unit;
 use crate::{check, cover, harnesses};
-use rsass::value::Number;
+use rsass::value::{Color, Number, Numeric, RgbFormat, Rgba};
 use std::cmp::Ordering;
+
+fn fmt_of(k: u8) -> RgbFormat {
+    match k % 4 {
+        0 => RgbFormat::LongHex,
+        1 => RgbFormat::ShortHex,
+        2 => RgbFormat::Name,
+        _ => RgbFormat::Rgb,
+    }
+}
 
 harnesses! {
     /// `Number == Number` is symmetric for all non-NaN doubles.
@@ -11,6 +21,7 @@ harnesses! {
         let a = Number::from(x);
         let b = Number::from(y);
         cover!(x != y && a == b, "distinct doubles that compare equal");
+        cover!(a != b, "unequal");
         check!((a == b) == (b == a), "Number == is symmetric");
     }
     /// Every non-NaN number equals itself.
@@ -22,19 +33,112 @@ harnesses! {
         cover!(x.is_infinite(), "infinite");
         check!(a == b, "Number == is reflexive (non-NaN)");
     }
-    /// Exactly one of <, ==, > holds for non-NaN numbers.
+    /// Exactly one of <, ==, > holds for non-NaN numbers: the ordering is
+    /// total, antisymmetric, and `==` is exactly its `Equal` case.
     fn c12_number_trichotomy [unwind 2] (s) {
         let x = s.num();
         let y = s.num();
         let a = Number::from(x);
         let b = Number::from(y);
+        let ab = a.partial_cmp(&b);
+        let ba = b.partial_cmp(&a);
+        let eq = a == b;
+        cover!(ab == Some(Ordering::Less), "less");
+        cover!(eq && x != y, "equal but distinct");
+        check!(ab.is_some(), "non-NaN numbers always compare");
+        check!(eq == (ab == Some(Ordering::Equal)), "== holds exactly when neither < nor > does");
+        check!(ab == ba.map(Ordering::reverse), "partial_cmp is antisymmetric");
+    }
+    /// The comparison operators are the ones derived from `partial_cmp`, and
+    /// `!=` negates `==` (cheap structural link used by the harness above).
+    fn c12t_number_operators_follow_partial_cmp [unwind 2] (s) {
+        let x = s.num();
+        let y = s.num();
+        let a = Number::from(x);
+        let b = Number::from(y);
+        let ab = a.partial_cmp(&b);
+        cover!(a < b, "less");
+        check!((a < b) == (ab == Some(Ordering::Less)), "< is partial_cmp == Less");
+        check!((a > b) == (ab == Some(Ordering::Greater)), "> is partial_cmp == Greater");
+        check!((a != b) == !(a == b), "!= is the negation of ==");
+    }
+    /// Equality never contradicts a clear ordering: a positive number is not
+    /// equal to one at least twice as large, nor to one of the opposite sign.
+    fn c12_number_eq_is_tight [unwind 2] (s) {
+        let x = s.num();
+        let y = s.num();
+        let a = Number::from(x);
+        let b = Number::from(y);
+        cover!(x > 0.0 && y > 0.0 && x.is_finite() && x >= y + y, "at least twice as large");
+        if x > 0.0 && y > 0.0 && x.is_finite() && x >= y + y {
+            check!(a != b, "a positive number does not equal one twice as large");
+            check!(a > b, "and is greater than it");
+        }
+        if (x < 0.0) != (y < 0.0) && x != 0.0 && y != 0.0 {
+            check!(a != b, "numbers of opposite sign are not equal");
+        }
+    }
+    /// Two numbers with the same (named) unit: symmetric, reflexive, trichotomy.
+    fn c12_numeric_same_unit [unwind 4] (s) {
+        let x = s.num();
+        let y = s.num();
+        let a = Numeric::new(x, unit(14));
+        let b = Numeric::new(y, unit(14));
+        let a2 = Numeric::new(x, unit(14));
         let lt = a < b;
         let eq = a == b;
         let gt = a > b;
         cover!(lt, "less");
         cover!(eq && x != y, "equal but distinct");
-        check!((lt as u8) + (eq as u8) + (gt as u8) == 1, "exactly one of < == > holds");
-        check!(a.partial_cmp(&b) == b.partial_cmp(&a).map(Ordering::reverse), "partial_cmp is antisymmetric");
-        check!((a != b) == !eq, "!= is the negation of ==");
+        check!(eq == (b == a), "Numeric == is symmetric (same unit)");
+        check!(a == a2, "Numeric == is reflexive (non-NaN)");
+        check!((lt as u8) + (eq as u8) + (gt as u8) == 1, "exactly one of < == > holds (same unit)");
+        check!((a != b) == !eq, "Numeric != is the negation of ==");
+        std::mem::forget((a, b, a2));
+    }
+    /// A unitless and a united number are never equal, in either order, and
+    /// their ordering is antisymmetric.
+    fn c12_numeric_unitless_vs_unit [unwind 4] (s) {
+        let x = s.num();
+        let y = s.num();
+        let a = Numeric::scalar(x);
+        let b = Numeric::new(y, unit(14));
+        cover!(x == y, "equal magnitudes");
+        check!(!(a == b) && !(b == a), "unitless never equals united, either way round");
+        check!(a.partial_cmp(&b) == b.partial_cmp(&a).map(Ordering::reverse), "ordering unitless/united is antisymmetric");
+        check!(a.partial_cmp(&b).is_some(), "unitless and united numbers compare");
+        std::mem::forget((a, b));
+    }
+    /// Rgba colours: `==` is symmetric and the ordering antisymmetric; two
+    /// channels differ freely (all non-NaN values), the other two are shared.
+    fn c12_rgba_eq_symmetric [unwind 2] (s) {
+        let (g, b) = (s.num(), s.num());
+        let c1 = Color::Rgba(Rgba::new(s.num(), g, b, s.num(), fmt_of(s.u8())));
+        let c2 = Color::Rgba(Rgba::new(s.num(), g, b, s.num(), fmt_of(s.u8())));
+        let e12 = c1 == c2;
+        cover!(e12, "equal");
+        cover!(!e12, "unequal");
+        check!(e12 == (c2 == c1), "Color == is symmetric (rgba)");
+        check!(c1.cmp(&c2) == c2.cmp(&c1).reverse(), "Color ordering is antisymmetric (rgba)");
+    }
+    /// All four channels differ freely (thorough tier: 6 minutes).
+    fn c12t_rgba_eq_symmetric_all_channels [unwind 2] (s) {
+        let c1 = Color::Rgba(Rgba::new(s.num(), s.num(), s.num(), s.num(), fmt_of(s.u8())));
+        let c2 = Color::Rgba(Rgba::new(s.num(), s.num(), s.num(), s.num(), fmt_of(s.u8())));
+        let e12 = c1 == c2;
+        cover!(e12, "equal");
+        cover!(!e12, "unequal");
+        check!(e12 == (c2 == c1), "Color == is symmetric (rgba)");
+        check!(c1.cmp(&c2) == c2.cmp(&c1).reverse(), "Color ordering is antisymmetric (rgba)");
+    }
+    /// Same rgba channels compare equal whatever notation flag they carry;
+    /// every non-NaN colour equals itself; `!=` negates `==`.
+    fn c12_rgba_eq_ignores_notation [unwind 2] (s) {
+        let (r, g, b, a) = (s.num(), s.num(), s.num(), s.num());
+        let c1 = Color::Rgba(Rgba::new(r, g, b, a, fmt_of(s.u8())));
+        let c2 = Color::Rgba(Rgba::new(r, g, b, a, fmt_of(s.u8())));
+        cover!(r > 255.0, "clamped channel");
+        check!(c1 == c2, "same rgba channels are equal whatever notation flag they carry");
+        check!(!(c1 != c2), "!= is the negation of == (rgba)");
     }
 }
